@@ -25,7 +25,7 @@ STUBS = ["every stage called by the orchestrating functions is wrapped: symbolic
 ASSUMPTIONS = ["at most one fault per run; the restore routine called from the exception handlers (_remove_auxiliary_elements) does not itself crash", "(A) table cells read by the builders are symbolic; (B) the net is concrete (dcline, tap-table trafo, gen, load, shunt), the fault "
                "point is the solver's variable", "'unchanged' = same row index per element table and every pre-existing column still present with "
                "identical values (NaN == NaN); columns added by a run and dtype changes are not counted"]
-OUTSIDE = ["exceptions raised inside compiled code in the middle of a write", "runpp_3ph and state estimation orchestration (thorough: estimation)",
+OUTSIDE = ["exceptions raised inside compiled code in the middle of a write", "runpp_3ph orchestration",
            "b2b_vsc nets (the same restore code path as dcline gens; not exercised)"]
 BOUNDS = {"quick": "(A) one net, 14 symbolic cells; (B) runpp, rundcpp, runopp, calc_sc(3ph), run_contingency x every derived stage boundary",
           "thorough": "same + calc_sc 1ph/2ph, rundcopp, natural-exception scenarios"}
@@ -121,9 +121,32 @@ ORCH = {
                 ("pandapower.shortcircuit.calc_sc", "_calc_sc_1ph"), ("pandapower.shortcircuit.ppc_conversion", "_init_ppc")],
     "run_contingency": [("pandapower.contingency.contingency", "run_contingency")],
     "run_contingency_ls2g": [("pandapower.contingency.contingency", "run_contingency_ls2g")],
+    "estimate": [("pandapower.estimation.state_estimation", "estimate"), ("pandapower.estimation.state_estimation", "StateEstimation.estimate")],
 }
 # stages that are not pandapower functions but at whose boundary the user's tables are in a temporarily changed state
 EXTRA_STAGES = {("pandapower.contingency.contingency", "run_contingency_ls2g"): ["init_ls2g", "ContingencyAnalysisCPP"]}
+
+
+def _net_se():
+    """closed bus-bus switches between buses that both carry elements: state estimation with fuse_buses_with_bb_switch=None gives them a
+    temporary impedance (and a backup column) in the user's switch table"""
+    if "se" not in _NET:
+        from pandapower.estimation.util import add_virtual_meas_from_loadflow
+        net = pp.create_empty_network()
+        b = [pp.create_bus(net, 20.) for _ in range(5)]
+        pp.create_ext_grid(net, b[0])
+        pp.create_line_from_parameters(net, b[0], b[1], 2., 0.1, 0.3, 10., 1.)
+        pp.create_line_from_parameters(net, b[2], b[3], 2., 0.1, 0.3, 10., 1.)
+        pp.create_line_from_parameters(net, b[3], b[4], 2., 0.1, 0.3, 10., 1.)
+        pp.create_switch(net, b[1], b[2], "b", closed=True, z_ohm=0.0)
+        pp.create_switch(net, b[3], 2, "l", closed=True)
+        pp.create_load(net, b[1], 1., 0.3)
+        pp.create_load(net, b[2], 0.5, 0.1)
+        pp.create_load(net, b[4], 0.7, 0.2)
+        pp.runpp(net, numba=False, lightsim2grid=False)
+        add_virtual_meas_from_loadflow(net, seed=1)
+        _NET["se"] = net
+    return _NET["se"]
 
 
 def _net_ls2g():
@@ -146,16 +169,18 @@ def _net_ls2g():
     return _NET["ls2g"]
 
 
-RESTORE_ROUTINES = {"_remove_auxiliary_elements"}      # only called from exception handlers: a crash inside the restore itself is a second fault
+RESTORE_ROUTINES = {"_remove_auxiliary_elements", "reset_bb_switch_impedance"}      # only called from exception handlers: a crash inside the restore itself is a second fault
 
 
 def _stages(modname, fname):
     """names called at statement level in the function that are bound, in its module, to pandapower functions (not classes)"""
     importlib.import_module(modname)
     mod = sys.modules[modname]
-    if not hasattr(mod, fname):
-        return mod, []
-    fn = getattr(mod, fname)
+    fn = mod
+    for part in fname.split("."):
+        if not hasattr(fn, part):
+            return mod, []
+        fn = getattr(fn, part)
     tree = ast.parse(textwrap.dedent(inspect.getsource(fn)))
     names = []
     for node in ast.walk(tree):
@@ -170,7 +195,7 @@ def _stages(modname, fname):
 
 def make_fault(calc):
     def fn(ctx):
-        net = copy.deepcopy(_net_ls2g() if calc == "run_contingency_ls2g" else _net())
+        net = copy.deepcopy(_net_ls2g() if calc == "run_contingency_ls2g" else (_net_se() if calc == "estimate" else _net()))
         snap = _snapshot(net)
         w = ctx.var("fault_point", 0., 400.)
         kind = ctx.var("fault_kind", 0., float(len(FAULT_KINDS)))
@@ -221,6 +246,8 @@ def make_fault(calc):
                     net.gen["vn_kv"] = 110.; net.gen["xdss_pu"] = 0.2; net.gen["rdss_ohm"] = 0.1; net.gen["cos_phi"] = 0.9; net.gen["sn_mva"] = 10.
                     snap = _snapshot(net)
                     sys.modules["pandapower.shortcircuit.calc_sc"].calc_sc(net, fault="3ph", case="max")
+                elif calc == "estimate":
+                    sys.modules["pandapower.estimation.state_estimation"].estimate(net, init="flat", fuse_buses_with_bb_switch=None)
                 elif calc == "run_contingency_ls2g":
                     import warnings
                     with warnings.catch_warnings():
@@ -291,7 +318,7 @@ def make_builders(mode):
 
 def instances(tier):
     out = []
-    calcs = ["runpp", "rundcpp", "runopp", "calc_sc", "run_contingency", "run_contingency_ls2g"] + (["rundcopp"] if tier == "thorough" else [])
+    calcs = ["runpp", "rundcpp", "runopp", "calc_sc", "run_contingency", "run_contingency_ls2g", "estimate"] + (["rundcopp"] if tier == "thorough" else [])
     for c in calcs:
         out.append(Inst(f"fault_schedule_{c}", make_fault(c), nvars=5, samples=3, max_paths=4000, meta=dict(part="B", calculation=c)))
     out.append(Inst("builders_pf", make_builders("pf"), nvars=40, samples=2, meta=dict(part="A", mode="pf"), raises=(UserWarning,)))
